@@ -14,7 +14,7 @@ RULE = ('every ordered pair (t1,t2) of the term universe (quick: all terms of de
         'x every stack of earlier, still suspended unifications from the menu (quick: 6 stacks; thorough: the depth<=1 universe under every '
         'stack of <=2 equations out of 8 that is consistent and acyclic) x every point of the stack at which the unify generator is CREATED (it is always advanced under the whole stack). For each: number of yields, canonical '
         'observation of (X,Y,Z,t1,t2) at the yield vs Robinson unification (mgu up to renaming incl. aliasing), both '
-        'terms observe equal, bindings restored after exhaustion and after close(). states = distinct '
+        'terms observe equal, bindings restored after exhaustion (the exhausted iterator is then also closed, twice) and after close(). states = distinct '
         '(stack, outcome) observations; transitions = next()/close() calls on real unify generators; non-trivial = '
         'the terms unify and bind at least one variable')
 ASSUMPTIONS = ['pairs whose unification would need a cyclic term are unspecified and skipped (counted)',
@@ -157,6 +157,11 @@ def check_pair(stack, t1, t2, create_at=None):
             if n > 1:
                 break
         steps += 1
+        # closing an iterator that is already exhausted is harmless (contextlib.closing, evaluate_bounded)
+        c = getattr(g, 'close', None)
+        if c is not None:
+            c()
+            c()
     except Exception as e:  # noqa: BLE001
         return fail('raises:' + impl.exc_sig(e), 'raised %r' % (e,))
     if n > 1:
